@@ -19,7 +19,7 @@ SPEC = dict(
          "commit of every step is written by a single `git fast-import`, git's own listing of every commit is read back by a "
          "single `git fast-export --all --full-tree --no-data` (ground truth of the oracle), a step points refs/heads/* at its "
          "commits. 2-6 steps of 0-3 edits each (add, modify, delete, rename, revert a branch to an earlier tree, copy a file "
-         "from another branch, sync a branch to another branch's tree, move a file between branches, swap two files, modify "
+         "from another branch, sync a branch to another branch's tree (branches with equal trees SHARE the commit: fast-forward / branch cut; 25% of the multi-branch histories start with all branches at one commit), move a file between branches, swap two files, modify "
          "one path on every branch, submodule entries (gitlinks) added / replacing a file / replaced by a file; small content "
          "pool so the same blob sits on several branches/paths), each step followed by gitindex.IndexGitRepo full or delta "
          "(75% delta requested; first run sometimes delta = fallback); 30% of the histories with a tiny ShardMax (several "
